@@ -93,7 +93,8 @@ def const_case(rec, seedt, tier):
     rng = gen.rng_for(*seedt)
     order = int(rng.choice(ORDERS))
     h = (order + 1) // 2
-    N = int(rng.choice([2, 3, 10, 50, 200, 5000, 20000] + ([70000] if tier == "thorough" else [])))
+    N = int(rng.choice([2, 3, 10, 50, 200, 5000, 20000, 16384, 16385, 32769]
+                       + ([70000, 65537] if tier == "thorough" else [])))
     skind = str(rng.choice(["frac", "frac", "negfrac", "int", "negint", "edge", "tiny", "big"]))
     if skind == "frac":
         s = float(rng.uniform(0, 6))
